@@ -372,6 +372,10 @@ def sub(x, y, out=None, out_like=None, sizing='optimal', method='raw', **kwargs)
         # a result with less fractional bits than the operands is aligned exactly when the exact difference exceeds 53 bits
         exact = n_frac < max(x.n_frac, y.n_frac) and max(x.n_int, y.n_int) + max(x.n_frac, y.n_frac) + 2 > 53
         precision_cast = _object_cast if exact else _raw_cast(x, y, n_bits, n_frac)
+        if not x.signed and not y.signed and precision_cast is not _object_cast:
+            # the difference of two unsigned values can be negative: it is calculated with signed integers (n_bits < 63 here)
+            _unsigned_cast = precision_cast
+            precision_cast = lambda m: np.asarray(m).astype(np.int64) if np.asarray(m).dtype.kind == 'u' else _unsigned_cast(m)
         return precision_cast(x.val) * precision_cast(_align_factor(n_frac - x.n_frac, exact)) - precision_cast(y.val) * precision_cast(_align_factor(n_frac - y.n_frac, exact))
 
     if not isinstance(x, Fxp):
